@@ -92,20 +92,29 @@ def syncSteal (self : Tree) (min : Nat) : Option Tree :=
 inductive Op where | online | offline
 deriving Repr, DecidableEq
 
+/-- the optional class of the matcher -/
+def matchCls (mcls : Option Nat) (cls : Nat) : Bool :=
+  match mcls with
+  | none => true
+  | some k => k == cls
+
+/-- the `operation` part of a change -/
+def changeOp (s : Tree) (op : Option Op) (fetchFree : Nat) : Upd Tree :=
+  match op with
+  | some .offline => .set { s with free := 0 }
+  | some .online =>
+    if s.free == 0 then
+      (if fetchFree < 2 ^ 28 then .set { s with free := fetchFree } else .panic "value out of bounds")
+    else .skip
+  | none => .set s
+
 /-- `Tree::change`; `fetchFree` is the value the closure would return -/
 def change (self : Tree) (mcls : Option Nat) (mfree : Nat) (ccls : Option Nat) (op : Option Op)
     (fetchFree : Nat) : Upd Tree :=
-  if !self.reserved && (match mcls with | none => true | some k => k == self.cls) && self.free ≥ mfree then
-    match (match ccls with | none => some self | some c => if clsOk c then some { self with cls := c } else none) with
-    | none => .panic "value out of bounds"
-    | some s =>
-      match op with
-      | some .offline => .set { s with free := 0 }
-      | some .online =>
-        if s.free == 0 then
-          (if fetchFree < 2 ^ 28 then .set { s with free := fetchFree } else .panic "value out of bounds")
-        else .skip
-      | none => .set s
+  if !self.reserved && matchCls mcls self.cls && self.free ≥ mfree then
+    match ccls with
+    | none => changeOp self op fetchFree
+    | some c => if clsOk c then changeOp { self with cls := c } op fetchFree else .panic "value out of bounds"
   else .skip
 
 end Tree
